@@ -95,6 +95,14 @@ def check_version(ctx, major, minor, rev):
         ctx.calls()
         if consumed != 8:
             bad.append('consumed {} != 8'.format(consumed))
+        if (major + minor + rev) % 7 == 0 or rev == 0:
+            # ... and the same with more data already in the buffer
+            c2, _ch2, out2 = p.frame.unmarshal(want + b'\x01\x00')
+            ctx.calls()
+            if c2 != 8 or lib.kind_of(out2) != 'protocol' or \
+                    (out2.major_version, out2.minor_version,
+                     out2.revision) != (major, minor, rev):
+                bad.append('with trailing bytes: consumed {}'.format(c2))
         if lib.kind_of(out) != 'protocol':
             bad.append('decoded a ' + lib.kind_of(out))
         elif (out.major_version, out.minor_version, out.revision) != \
